@@ -74,7 +74,7 @@ struct ThreadState {
 struct Engine {
     Pool pool;
     ThreadState ts[Pool::kMax + 2];        // [kMax] coordinator prefix, [kMax+1] coordinator growth after the fault
-    bool strict_gtal = false, strict_uninit = false;
+    bool strict_gtal = true, emit_uninit = true;
     uint64_t scn = 0;
 };
 constexpr int kPreTid = Pool::kMax, kPostTid = Pool::kMax + 1;
@@ -171,9 +171,11 @@ inline CallRec exec_op(Vec& v, const Op& op, int tid, int callno, uint64_t scn, 
                 if (cfg.strict_gtal) ts.fail("gtal-return-storage-not-allocated", rec_str(c) + ": on return size() = " + std::to_string(sz) + ", capacity() = " + std::to_string(cap) + " < n (a segment below n is still unallocated)");
             } else if (Ctx* cx = g_ctx().load(kRlx)) {
                 for (int i = 0; i < 4; i++) {
-                    uint64_t x = i == 0 ? op.arg - 1 : ts.rng.below(op.arg);
+                    uint64_t x = i == 0 ? op.arg - 1 : i == 1 ? 0 : ts.rng.below(op.arg);
                     const Elem* p = &v[x];
                     if (!cx->find((uintptr_t)p) && !cx->overflow.load(kRlx)) ts.fail("gtal-return-index-not-addressable", rec_str(c) + ": index " + std::to_string(x) + " < n maps to " + hex64((uintptr_t)p) + ", inside no allocated block");
+                    try { if (&v.at(x) != p) ts.fail("iterator-address-mismatch", rec_str(c) + ": at(" + std::to_string(x) + ") and operator[] disagree"); }
+                    catch (std::exception& e) { ts.fail("gtal-return-storage-not-allocated", rec_str(c) + ": at(" + std::to_string(x) + ") throws " + e.what() + " right after the call returned"); }
                 }
             }
         }
@@ -351,7 +353,7 @@ inline void verify_quiescent(Vec& v, Ctx& cx, const std::vector<const CallRec*>&
             for (int i = 0; i < n; i++) {
                 Region& r = cx.reg[i]; if (!r.base.load() || !r.elem) continue;
                 Slot* s = r.shadow.load(); if (!s) continue;
-                uint64_t first = r.base.load() == (uintptr_t)&v[0] ? 0 : r.n.load();
+                uint64_t first = (sz && r.base.load() == (uintptr_t)&v[0]) ? 0 : r.n.load();
                 long live = 0; for (uint64_t o = 0; o < r.n.load(); o++) if (s[o].live.load()) live++;
                 uint64_t in_ranges = 0; for (auto* pc : rg) { uint64_t a = std::max(pc->start, first), b = std::min(pc->start + pc->count, first + r.n.load()); if (b > a) in_ranges += b - a; }
                 if ((uint64_t)live != in_ranges) { vd.fail("constructed-outside-returned-ranges", "block of indices [" + std::to_string(first) + "," + std::to_string(first + r.n.load()) + ") holds " + std::to_string(live) + " live elements, the returned ranges cover " + std::to_string(in_ranges) + " of its slots"); return; }
@@ -386,6 +388,9 @@ inline void verify_quiescent(Vec& v, Ctx& cx, const std::vector<const CallRec*>&
     for (size_t i = 0; i < byt.size() && !q.overlapped; i++) for (size_t j = i + 1; j < byt.size(); j++)
         if (byt[i]->tid != byt[j]->tid && byt[i]->t0 < byt[j]->t1 && byt[j]->t0 < byt[i]->t1) { q.overlapped = true; break; }
 }
+
+// keys of a KNOWN finding are emitted once per process (the violation list of a process is capped; the rest is counted)
+inline bool first_time(const std::string& key) { static std::mutex m; static std::set<std::string> seen; std::lock_guard<std::mutex> l(m); return seen.insert(key).second; }
 
 inline const std::vector<int>& hook_ids() { static const std::vector<int> v{ 150, 151, 152, 153, 150, 152 }; return v; }
 
@@ -464,12 +469,16 @@ inline void run_growth(Engine& E, const Plan& p, Rng& r) {
     long dz = c.unconstructed_destroyed_zero.load(), dg = c.unconstructed_destroyed_garbage.load();
     if (cls == 'G' && (dz || dg)) vd.fail("destroyed-unconstructed-slot", "the destructor destroyed " + std::to_string(dz + dg) + " slots that were never constructed although no call failed");
     if (dg) {
-        if (p.fault == F_ALLOC && c.alloc_fired.load()) { R.stat(C + "_unconstructed_slots_destroyed", dg); if (E.strict_uninit) vd.fail("unconstructed-slot-destroyed", "after an allocation failure the destructor ran on " + std::to_string(dg) + " slots that were neither constructed nor zero-filled"); }
-        else if (cls != 'G') vd.fail("raw-slot-after-ctor-throw-destroyed", "the destructor ran on " + std::to_string(dg) + " slots that were neither constructed nor zero-filled (only a constructor was made to throw)");
+        if (p.fault == F_ALLOC && c.alloc_fired.load()) {
+            R.stat(C + "_unconstructed_slots_destroyed", dg);
+            if (E.emit_uninit && first_time(key_of(cls, "unconstructed-slot-destroyed"))) R.violation(key_of(cls, "unconstructed-slot-destroyed"), "after an allocation failure the destructor ran on " + std::to_string(dg) + " slots that were neither constructed nor zero-filled", pj);
+        } else if (cls != 'G') vd.fail("raw-slot-after-ctor-throw-destroyed", "the destructor ran on " + std::to_string(dg) + " slots that were neither constructed nor zero-filled (only a constructor was made to throw)");
     }
     if (sw.raw) {
-        if (p.fault == F_ALLOC && c.alloc_fired.load()) { R.stat(C + "_unconstructed_slots_accessible", sw.raw); if (E.strict_uninit) vd.fail("unconstructed-slot-accessible", "after an allocation failure at() hands out " + std::to_string(sw.raw) + " slots below size() that are neither constructed nor zero-filled"); }
-        else vd.fail("raw-slot-after-ctor-throw-accessible", "at() hands out " + std::to_string(sw.raw) + " slots below size() that are neither constructed nor zero-filled (only a constructor was made to throw)");
+        if (p.fault == F_ALLOC && c.alloc_fired.load()) {
+            R.stat(C + "_unconstructed_slots_accessible", sw.raw);
+            if (E.emit_uninit && first_time(key_of(cls, "unconstructed-slot-accessible"))) R.violation(key_of(cls, "unconstructed-slot-accessible"), "after an allocation failure at() hands out " + std::to_string(sw.raw) + " slots below size() that are neither constructed nor zero-filled", pj);
+        } else vd.fail("raw-slot-after-ctor-throw-accessible", "at() hands out " + std::to_string(sw.raw) + " slots below size() that are neither constructed nor zero-filled (only a constructor was made to throw)");
     }
     // bookkeeping
     R.scenarios++;
